@@ -290,6 +290,15 @@ func runC18(e *emitter, tier string, seed uint64) {
 	for i := 0; i < nmux; i++ {
 		c18Mux(e, r, i)
 	}
+	// 2c. callers released together, with parameters that take a moment to encode: every caller gets an id of its own and
+	// the response to ITS request (the peer echoes the parameters)
+	npc := 3
+	if tier == "thorough" {
+		npc = 30
+	}
+	for i := 0; i < npc; i++ {
+		c18ParallelCalls(e, i)
+	}
 	// 3. call / response matching against a scripted peer over net.Pipe
 	rounds := 30
 	if tier == "thorough" {
@@ -529,4 +538,80 @@ func c18Mux(e *emitter, r *rng, round int) {
 	wire := append([]byte(nil), mc.out.Bytes()...)
 	mc.mu.Unlock()
 	e.emit(fmt.Sprintf("mux %d %d", round, e.emitted), "mux", fmt.Sprint(nIn+senders*each), hx(string(wire)))
+}
+
+// slowParam encodes slowly, so that callers overlap inside Call.
+type slowParam string
+
+func (p slowParam) MarshalJSON() ([]byte, error) {
+	time.Sleep(300 * time.Microsecond)
+	return json.Marshal(string(p))
+}
+
+func c18ParallelCalls(e *emitter, round int) {
+	c1, c2 := net.Pipe()
+	conn := jsonrpc2.NewConn(jsonrpc2.NewStream(c1))
+	peer := jsonrpc2.NewStream(c2)
+	ctx, stop := context.WithCancel(context.Background())
+	conn.Go(ctx, func(ctx context.Context, reply jsonrpc2.Replier, req jsonrpc2.Request) error { return reply(ctx, nil, nil) })
+	const n = 8
+	go func() { // the peer echoes the parameters of every call as its result
+		for {
+			msg, _, err := peer.Read(ctx)
+			if err != nil {
+				return
+			}
+			if call, ok := msg.(*jsonrpc2.Call); ok {
+				var p string
+				json.Unmarshal(call.Params(), &p)
+				resp, _ := jsonrpc2.NewResponse(call.ID(), p, nil)
+				peer.Write(ctx, resp)
+			}
+		}
+	}()
+	start := make(chan struct{})
+	ids := make([]string, n)
+	wrong := 0
+	var mu sync.Mutex
+	var wg sync.WaitGroup
+	for t := 0; t < n; t++ {
+		wg.Add(1)
+		go func(t int) {
+			defer wg.Done()
+			<-start
+			cctx, cancel := context.WithTimeout(ctx, 2*time.Second)
+			defer cancel()
+			want := fmt.Sprintf("round %d caller %d", round, t)
+			var got string
+			done := make(chan struct{})
+			var id jsonrpc2.ID
+			var err error
+			go func() { id, err = conn.Call(cctx, "echo", slowParam(want), &got); close(done) }()
+			select {
+			case <-done:
+			case <-time.After(5 * time.Second):
+				err = errors.New("stuck")
+			}
+			mu.Lock()
+			ids[t] = fmt.Sprint(id)
+			if err != nil || got != want {
+				wrong++
+			}
+			mu.Unlock()
+		}(t)
+	}
+	close(start)
+	wg.Wait()
+	stop()
+	c1.Close()
+	c2.Close()
+	seen := map[string]bool{}
+	dups := 0
+	for _, id := range ids {
+		if seen[id] {
+			dups++
+		}
+		seen[id] = true
+	}
+	e.emit(fmt.Sprintf("pcall %d", round), "pcall", fmt.Sprint(n), fmt.Sprint(wrong), fmt.Sprint(dups))
 }
